@@ -329,7 +329,10 @@ func (c *Client) Send(packet stanza.Packet) error {
 	// Store stanza as non-acked as part of stream management
 	// See https://xmpp.org/extensions/xep-0198.html#scenarios
 	if c.config.StreamManagementEnable {
-		if _, ok := packet.(stanza.SMRequest); !ok {
+		// Acknowledgement requests and answers are not stanzas: they are neither held nor counted
+		_, isReq := packet.(stanza.SMRequest)
+		_, isAns := packet.(stanza.SMAnswer)
+		if !isReq && !isAns {
 			toStore := stanza.UnAckedStz{Stz: string(data)}
 			c.Session.SMState.UnAckQueue.Push(&toStore)
 		}
